@@ -709,6 +709,8 @@ def build_cases(ctx):
 
 def describe_case(c):
     d = {"cls": c["cls"], "text": c["text"]}
+    if "exp" in c:
+        d["exp"] = c["exp"]
     if "intent" in c:
         d["intent"] = {k: (str(v) if isinstance(v, Fraction) else [None if g is None else str(g) for g in v]
                            if k == "gains" else v) for k, v in c["intent"].items() if k != "lines"}
@@ -841,7 +843,13 @@ def replay(ctx, data):
     enc, why = enc_impl(obs, mo)
     enc = fix_sync_start(mo, enc)
     print("model agrees with implementation:", enc == mo, why or "")
-    still = True
-    if data.get("kind") == "failing-input":
-        still = data.get("tags", {}).get("kind") is not None
-    return 1 if (still or enc != mo) else 0
+    bad = []
+    if c["cls"] in ("grammar", "bigdigits") and "exp" in inp:
+        bad = oracle_grammar(obs, inp["exp"])
+    elif c["cls"] == "probe" and "intent" in inp:
+        it = dict(inp["intent"])
+        it["range"] = Fraction(it["range"])
+        it["gains"] = [None if g is None else Fraction(g) for g in it["gains"]]
+        bad = oracle_probe(obs, it)
+    print("property clauses failing on the implementation:", [b[0] for b in bad])
+    return 1 if (bad or enc != mo) else 0
